@@ -345,7 +345,7 @@ const char * etcLdSoPreload_findNonCommentLineContainingString (const char * con
         // Search in reverse for a newline character, or start of the buffer
         for (
             lineStartPtr = foundStringPos;
-            (lineStartPtr > contentPos) && (*lineStartPtr != '\n');
+            (lineStartPtr > content) && (*lineStartPtr != '\n');
             lineStartPtr--
         );
 
